@@ -5,11 +5,12 @@ package control
 // Add-only verification hook (C05): read-only dump of the controller's regions.
 
 // VerifGate is a copy of a gate's identity as seen by its region. Position is only used
-// by the harness to order the gates of a region (earliest open first).
+// by the harness to order the gates of a region (earliest open first); it is converted
+// explicitly so that the hook does not depend on the integer type of the field.
 type VerifGate struct {
 	Subject   string
 	Authority uint8
-	Position  uint
+	Position  uint64
 }
 
 // VerifRegion is a copy of one region's bookkeeping.
@@ -36,11 +37,11 @@ func (c *Controller[R]) VerifDump() []VerifRegion {
 		}
 		if r.curr != nil {
 			vr.HasCurr = true
-			vr.Curr = VerifGate{Subject: r.curr.subject.Key, Authority: uint8(r.curr.authority), Position: r.curr.position}
+			vr.Curr = VerifGate{Subject: r.curr.subject.Key, Authority: uint8(r.curr.authority), Position: uint64(r.curr.position)}
 			_, vr.CurrInGates = r.gates[r.curr]
 		}
 		for g := range r.gates {
-			vr.Gates = append(vr.Gates, VerifGate{Subject: g.subject.Key, Authority: uint8(g.authority), Position: g.position})
+			vr.Gates = append(vr.Gates, VerifGate{Subject: g.subject.Key, Authority: uint8(g.authority), Position: uint64(g.position)})
 		}
 		r.RUnlock()
 		out = append(out, vr)
